@@ -807,6 +807,7 @@ func checkJacobianHessian(c *core.Ctx) {
 			"the helper must work on x_.CloneMagicVector() activated with Variables("+order+") and evaluate f on that clone")
 		// store
 		condStore := ""
+		var condPos token.Pos
 		okStore := false
 		msg := "no store of the derivative into r"
 		ast.Inspect(fd.Body, func(n ast.Node) bool {
@@ -837,6 +838,7 @@ func checkJacobianHessian(c *core.Ctx) {
 								// conditional store: zero derivatives must clear the receiver's old entry
 								if is.Else == nil {
 									condStore = exprStr(is.Cond)
+									condPos = is.Pos()
 								}
 							}
 						}
@@ -865,6 +867,26 @@ func checkJacobianHessian(c *core.Ctx) {
 			return true
 		})
 		c.Check(okStore, "C06.R4", cons, "r(i,j) = d y_i/d x_j resp. d2 y/dx_i dx_j", fd.Pos(), msg)
+		if condStore != "" {
+			// a conditional store is complete when the receiver is reset unconditionally (a top-level statement) before the loops
+			for _, st := range fd.Body.List {
+				es, ok := st.(*ast.ExprStmt)
+				if !ok {
+					continue
+				}
+				ce, ok := es.X.(*ast.CallExpr)
+				if !ok || len(ce.Args) != 0 {
+					continue
+				}
+				sel, ok := ce.Fun.(*ast.SelectorExpr)
+				if !ok || sel.Sel.Name != "Reset" {
+					continue
+				}
+				if id, ok := ast.Unparen(sel.X).(*ast.Ident); ok && fd.Recv != nil && len(fd.Recv.List[0].Names) > 0 && f.info.Uses[id] == f.info.Defs[fd.Recv.List[0].Names[0]] && es.Pos() < condPos {
+					condStore = ""
+				}
+			}
+		}
 		if okStore {
 			c.Check(condStore == "", "C06.R4", cons, "every cell of r is written", fd.Pos(),
 				"the derivative is stored only if "+condStore+" and nothing clears the cell otherwise: entries the result matrix held before the call survive where the derivative is zero")
